@@ -450,7 +450,7 @@ pub fn gen_wio(rng: &mut Rng) -> RawCase {
     let ivars = ["A%", "B&", "C!", "D#", "AR%(1)", "AR%(9)"];
     let svars = ["E$", "F$"];
     let ints = ["0", "1", "-1", "2", "3", "255", "256", "300", "32767", "40000", "-32768", "A%", "LEN(E$)"];
-    let strs = ["\"\"", "\"a\"", "\"Hello\"", "E$", "F$", "CHR$(0)", "CHR$(13)", "SPACE$(3)", "STR$(A%)", "\"##.##\"", "\"\\  \\\"", "\"!\"", "\"#,###.#\"", "\"A=B\"", "\"A\""];
+    let strs = ["\"\"", "\"a\"", "\"Hello\"", "E$", "F$", "CHR$(0)", "CHR$(13)", "SPACE$(3)", "STR$(A%)", "\"##.##\"", "\"\\  \\\"", "\"!\"", "\"#,###.#\"", "\"A=B\"", "\"A\"", "\"=B\"", "\"A=\" + CHR$(0)", "CHR$(0) + \"=1\""];
     let n = 2 + rng.below(14);
     for _ in 0..n {
         let h = *rng.pick(&["1", "2", "3", "4", "255"]);
@@ -667,7 +667,7 @@ pub fn gen_wrep(rng: &mut Rng) -> RawCase {
         let s2 = *rng.pick(&se);
         let v = *rng.pick(&iv);
         let w = *rng.pick(&sv);
-        let line = match rng.below(if jumps { 41 } else { 38 }) {
+        let line = match if rng.chance(1, 120) { 41 } else { rng.below(if jumps { 41 } else { 38 }) } {
             0..=4 => format!("{} = {}", v, i1),
             5..=8 => format!("{} = {}", w, s1),
             9 => format!("{} = {} + {} * {}", v, i1, i2, i1),
@@ -718,7 +718,9 @@ pub fn gen_wrep(rng: &mut Rng) -> RawCase {
             37 => format!("{} = Fn4%({}, {})", v, rng.pick(&["A1%(Fn1%(1))", "I%", "PA(Fn1%(1)).X", "A1%(I%)"]), rng.pick(&["I%", "GS%", "A1%(Fn1%(0) + 1)"])),
             38 => format!("GOTO {}", rng.pick(&["InFor", "InSel", "InWhile", "InIf"])),
             39 => format!("IF {} > {} THEN GOTO {}", i1, i2, rng.pick(&["InFor", "InSel", "InWhile", "InIf"])),
-            _ => format!("GOSUB {}", rng.pick(&["InFor", "InSel"])),
+            40 => format!("GOSUB {}", rng.pick(&["InFor", "InSel"])),
+            // assignment to something that is not a variable: for the checker to refuse
+            _ => format!("{} = {}", rng.pick(&["MID$(T$, 2, 1)", "LEFT$(T$, 1)", "UBOUND(A1%)", "LEN(T$)"]), s1),
         };
         l.push(line);
     }
